@@ -2,17 +2,27 @@
   C04 — numbers survive conversion between text and binary exactly.
 
   Model : JV.Model.Number (dec_to_integer, from_integer, the parser's integer classification),
-          JV.Model.BigInt (basic_bigint's += / -= / compare limb loops with 64-bit wrap-around).
-  Proved: integer parse/print exactness incl. both 64-bit boundaries; exactness of the bigint
-          addition and subtraction loops. NOT proved (validated per case against exact Python
-          arithmetic in the correspondence run): Grisu3 / snprintf digit generation, strtod,
-          bigint multiplication, division, shifts and radix conversion.
+          JV.Model.BigInt (basic_bigint's limb loops with 64-bit wrap-around: += / -= / compare / reduce,
+          DDproduct, *= word, *= bigint (1×1, word×many, schoolbook columns), <<=, >>=, += word, the string
+          constructor (detail::to_bigint), from_bytes_be, divide's num<denom / 1×1 / half-word exits,
+          write_bytes_be, write_string's 19-digit chunk loop). Every one of these is run against the real member
+          function word for word in the correspondence stream `bigint-limbs` (operands and results as sign + hex words).
+  Proved: integer parse/print exactness incl. both 64-bit boundaries; exactness of bigint addition, subtraction,
+          reduce; DDproduct = the 128-bit product (high word ≤ 2^64-2); *= word and *= bigint exact (all exits);
+          <<= is ·2^k, >>= is ⌊|·|/2^k⌋; decimal text → bigint exact and total on digit strings, none otherwise;
+          from_bytes_be / write_bytes_be are the big-endian base-256 value, and round-trip; divide by a one-word
+          denominator exact on the modelled exits; write_string ∘ string constructor = identity on the integer
+          (unconditional for values of one word; for longer values conditional on divide(10^19) being exact).
+  NOT proved (validated per case against exact Python arithmetic in the correspondence run): Grisu3 / snprintf
+          digit generation, strtod, the general (Knuth) exit of bigint divide (normalize / DDquotient /
+          subtractmul / unnormalize) and hence multi-word write_string's divisions, hex text.
 -/
 import JV.Proofs.Number
 import JV.Proofs.BigInt
 import JV.Proofs.BigIntMul
 import JV.Proofs.BigIntShift
 import JV.Proofs.BigIntRadix
+import JV.Proofs.BigIntPrint
 namespace JV.Props.C04
 open JV Model
 
@@ -118,7 +128,8 @@ theorem bigint_shr_exact (a : BigInt.Big) (k : Nat) (ha : BigInt.Words a.mag) :
 /-- the string constructor (`detail::to_bigint`: `v *= 10u; v += digit` per character): every non-empty digit
     string becomes exactly its decimal value; the sign flag is set only on request -/
 theorem bigint_parse_exact (neg : Bool) (s : Bytes) (hne : s ≠ []) (hd : AllDigits s) :
-    ∃ b, BigInt.ofDecimalDigits neg s = some b ∧ BigInt.val b.mag = decVal s ∧ BigInt.Words b.mag ∧ (b.neg = true → neg = true) :=
+    ∃ b, BigInt.ofDecimalDigits neg s = some b ∧ BigInt.val b.mag = decVal s ∧ BigInt.Words b.mag ∧ (b.neg = true → neg = true) ∧
+      (b.neg = neg ∨ decVal s = 0) :=
   BigInt.ofDecimalDigits_ok neg s hne hd
 
 /-- … and anything else is rejected (no partial parse, no skipped character) -/
@@ -149,6 +160,21 @@ theorem bigint_bytes_roundtrip (a : BigInt.Big) (ha : BigInt.Words a.mag) :
     BigInt.toInt (BigInt.fromBytesBE (BigInt.toBytesBE a).1 (BigInt.toBytesBE a).2) = BigInt.toInt a :=
   BigInt.bytes_roundtrip a ha
 
+/-- `write_string` (19-digit chunks, zero-padded except the last, sign, reverse) followed by the string
+    constructor gives the same integer back — for every bigint, PROVIDED the `divide(10^19)` it calls is exact
+    on the values it meets (`Div19Exact P div19`, `P` any property of word lists kept by the quotient). The
+    general (Knuth) `divide` exit is not modelled: for it this premise is an observation of the correspondence run. -/
+theorem bigint_print_parse (P : List Nat → Prop) (div19 : List Nat → List Nat × Nat) (hdiv : BigInt.Div19Exact P div19)
+    (a : BigInt.Big) (hP : P a.mag) (ha : BigInt.Words a.mag) :
+    ∃ b, BigInt.ofDecimal (BigInt.toDecimal div19 a) = some b ∧ BigInt.toInt b = BigInt.toInt a :=
+  BigInt.print_parse P div19 hdiv a hP ha
+
+/-- … and unconditionally for every value of at most one word, where `divide(10^19)` leaves through its
+    modelled `num < denom` / 1×1 exits -/
+theorem bigint_print_parse_word (a : BigInt.Big) (hl : a.mag.length ≤ 1) (ha : BigInt.Words a.mag) :
+    ∃ b, BigInt.ofDecimal (BigInt.toDecimal BigInt.div19Word a) = some b ∧ BigInt.toInt b = BigInt.toInt a :=
+  BigInt.print_parse_word a hl ha
+
 /-! ### non-vacuity -/
 example : decToU64 [49, 56, 52, 52, 54, 55, 52, 52, 48, 55, 51, 55, 48, 57, 53, 53, 49, 54, 49, 53] = .ok (2 ^ 64 - 1) := by rfl
 example : decToU64 [49, 56, 52, 52, 54, 55, 52, 52, 48, 55, 51, 55, 48, 57, 53, 53, 49, 54, 49, 54] = .error .range := by rfl
@@ -169,5 +195,8 @@ example : BigInt.ofDecimal [45] = none := by decide
 example : BigInt.toBytesBE { neg := true, mag := [0, 1] } = (-1, [1, 0, 0, 0, 0, 0, 0, 0, 0]) := by decide
 example : BigInt.fromBytesBE (-1) [1, 0, 0, 0, 0, 0, 0, 0, 0] = { neg := true, mag := [0, 1] } := by decide
 example : BigInt.divWord [6, 7] 3 = some ([6148914691236517207, 2], [1]) := by decide
+-- -(2^64 - 1) prints as "-18446744073709551615": two chunks, the first padded to 19 digits
+example : BigInt.toDecimal BigInt.div19Word { neg := true, mag := [BigInt.B - 1] } =
+    [45, 49, 56, 52, 52, 54, 55, 52, 52, 48, 55, 51, 55, 48, 57, 53, 53, 49, 54, 49, 53] := by decide
 
 end JV.Props.C04
